@@ -169,7 +169,7 @@ def replay(case):
     return evaluate(case).verdicts
 
 
-PARAMS = {"quick": 1000, "thorough": 25000}
+PARAMS = {"quick": 1600, "thorough": 25000}
 
 
 def shard(ctx):
